@@ -26,7 +26,7 @@ def awkward(world, build, G, setid):
         return []
     out = []
     n0 = worlds.OFFS[build][2] - 1
-    g0 = worlds.OFFS[build][0] - 1
+    g0 = world.offs(build)[0] - 1
     border = world.region_range(build, "e1")[1]      # a region border inside the gene
 
     def rd(name, pos, cigar, fill="G"):
@@ -58,7 +58,7 @@ def awkward(world, build, G, setid):
         if not world.spec.pseudo:
             out += [rd("aw_g_spanning", g0 - 40, f"{world.glen() + 80}M")]
         else:
-            p0 = worlds.OFFS[build][1] - 1       # the pseudogene lies outside the RefSeq-mapped part
+            p0 = world.offs(build)[1] - 1       # the pseudogene lies outside the RefSeq-mapped part
             out += [rd("aw_p_del", p0 + 130, "20M3D27M"), rd("aw_p_del2", p0 + 133, "25M2D23M"), rd("aw_p_ins", p0 + 330, "25M2I23M"),
                     rd("aw_p_x", p0 + 430, "20=2X28="), rd("aw_p_edge", p0 - 25, "50M")]
     return out
@@ -83,7 +83,8 @@ class C07(Check):
         return 1
 
     def specs(self):
-        a = [worlds.WorldSpec(("+", "-"), True, False, 0, "small"), worlds.WorldSpec(("-", "+"), False, True, 1, "small")]
+        a = [worlds.WorldSpec(("+", "-"), True, False, 0, "small"), worlds.WorldSpec(("-", "+"), False, True, 1, "small"),
+             worlds.WorldSpec(("+", "-"), True, True, 1, "small", "pfirst")]     # pseudogene upstream of the gene
         if self.tier == "thorough":
             a += [worlds.WorldSpec(("-", "-"), True, True, 2, "small"), worlds.WorldSpec(("+", "-"), True, False, 0, "rich")]
         return a
